@@ -944,7 +944,8 @@ class Interp(object):
             if rec[0] >= self.h.unroll:
                 widen_now = True
             rec[0] += 1
-        elif dst in loops and dst not in fr.loops:
+        elif dst in loops and (dst not in fr.loops or (fr.loops[dst][1] and getattr(self.h, 'reenter_loops', True))):
+            # entered from outside (first time, or again from an enclosing loop's later iteration): a fresh instance of the loop
             fr.loops[dst] = [0, False, None]
         blk = fn.blocks[dst]
         # phis are evaluated simultaneously from the predecessor's values
@@ -1320,6 +1321,8 @@ class Interp(object):
                 used.append((a1, ('aff', a2, deltas[a1], deltas[a2], entry[a1], entry[a2]), None))
         st.flags['wbegin:' + fn.name] = begin
         st.flags['hbegin:%s:%s' % (fn.name, header)] = begin
+        st.flags['hentry:%s:%s' % (fn.name, header)] = dict((n2, entry.get(n2, orig_vals.get(n2)) if self.h.widen_on_entry else entry.get(n2))
+                                                             for n2 in begin)
         extra = self.h.loop_candidates(self, st, fn, header, phis)
         for (name, lin) in extra:
             k2 = key0 + (name, 'x')
